@@ -205,7 +205,7 @@ def write_replay(pid, tier, viol, unit_runs, witness=None):
 
 HARNESS_TARGET = os.path.join(VERIF, '.cache', 'harness-target')
 WITNESS_TESTS = {
-    'C01': ['c01_search'], 'C02': ['c01_search'], 'C03': ['c03_witness', 'c03_search'], 'C05': ['c05_witness'], 'C10': ['c10_witness', 'c10_search'],
+    'C01': ['c01_search'], 'C02': ['c01_search'], 'C03': ['c03_witness', 'c03_search'], 'C05': ['c05_witness', 'c05_uses'], 'C10': ['c10_witness', 'c10_search'],
     'C09': ['c09_witness'], 'C12': ['c12_witness'], 'C13': ['c13_witness'], 'C17': ['c17_witness'], 'C18': ['c18_witness'], 'C19': ['c19_witness'], 'C14': ['c14_witness', 'c14_search'], 'C15': ['c15_witness', 'c15_search'], 'C16': ['c16_witness', 'c16_alias'],
 }
 
@@ -221,11 +221,17 @@ def witness_search(pid, budget_s=600, tests=None):
     env = dict(os.environ, CARGO_NET_OFFLINE='true', CARGO_TARGET_DIR=HARNESS_TARGET, WITNESS_PROP=pid)   # shared searches report only this property's clauses
     for t in tests:
         try:
-            p = subprocess.run(['cargo', 'test', '--offline', '--manifest-path', os.path.join(VERIF, 'harness', 'Cargo.toml'), '--test', t, '--', '--test-threads', '4'],
+            p = subprocess.run(['cargo', 'test', '--offline', '--manifest-path', os.path.join(VERIF, 'harness', 'Cargo.toml'), '--test', t, '--', '--test-threads', '4', '--nocapture'],
                                capture_output=True, text=True, env=env, timeout=budget_s)
         except subprocess.TimeoutExpired:
             continue
         out = p.stdout + p.stderr
+        if p.returncode != 0 and re.search(r'overflowed its stack|signal: (6|11)|SIGABRT|SIGSEGV', out) and not re.search(r'WITNESS ', out):
+            # the test process itself died (stack overflow in the code under test): the last input announced before the crash
+            tr = re.findall(r'^TRYING ([^\n]*)', out, re.M)
+            return {'harness_test': t, 'failed_tests': ['(test process aborted)'],
+                    'failing_input': 'the analysis overflowed the stack / aborted the process' + ((' on ' + tr[-1]) if tr else ' during the search'),
+                    'rerun': 'CARGO_TARGET_DIR=%s cargo test --offline --manifest-path %s/harness/Cargo.toml --test %s -- --nocapture' % (HARNESS_TARGET, VERIF, t)}
         if p.returncode != 0 and re.search(r'test result: FAILED|panicked at', out):
             failed = re.findall(r'^test (\S+) \.\.\. FAILED', out, re.M)
             m = re.search(r'WITNESS ([^\n]*)', out)
@@ -241,6 +247,7 @@ def kill_matrix(pid, units):
     import importlib.util
     from concurrent.futures import ThreadPoolExecutor
     out = {}
+    open_ids = set(f['id'] for f in load_findings().get('open', []))   # failures recorded as open findings are not kills
     for un in units:
         mp = os.path.join(VERIF, 'contracts', un, 'mutants.py')
         if not os.path.exists(mp):
@@ -265,10 +272,10 @@ def kill_matrix(pid, units):
                 pass
             if ur.res.status == 'undecided':
                 return m['id'], 'undecided'
-            mine = [f for f in real if pid in f.tags and not f.finding]
+            mine = [f for f in real if pid in f.tags and not (f.finding and f.finding in open_ids)]
             if benign:
                 return m['id'], ('verifies' if not mine else 'FALSE-ALARM')
-            if mine and not any(is_primary(ur, f) for f in mine):
+            if mine and not any(is_primary(ur, f, pid) for f in mine):
                 return m['id'], 'aux-only (undecided unless a recorded input fails)'
             return m['id'], ('killed' if mine else 'SURVIVED')
         with ThreadPoolExecutor(max_workers=8) as ex:
@@ -279,22 +286,25 @@ def kill_matrix(pid, units):
     return out
 
 
-def incomplete_reason(ur, f):
+def incomplete_reason(ur, f, pid=None):
     """why the function this obligation belongs to cannot be decided by its contracts on this tree (None if it can): an anchor of its
     contract text vanished, it is - or calls - a function the contracts do not know (and R17 could not inline), or its loops changed"""
     inc = getattr(ur.gen, 'incomplete', {})
+    scope = getattr(ur.gen, 'incomplete_tags', {})
     fn = f.fn or ''
     for k, why in inc.items():
         if fn == k or fn.startswith(k + '#'):
-            return '; '.join(why)
+            tg = scope.get(k)
+            if tg is None or (pid in tg if pid else bool(set(tg) & set(f.tags))):
+                return '; '.join(why)
     return None
 
 
-def is_primary(ur, f):
+def is_primary(ur, f, pid=None):
     """a failed obligation that states the property or an interface between functions: a NAMED clause, a postcondition, a precondition at a
     call, or a panic site (overflow, bounds, assert!/expect/unwrap, termination).  Auxiliary: unnamed loop invariants, ghost assertions
     and proof hints of the contracts - when only those fail, the proof ARGUMENT broke, which says nothing about the property."""
-    if incomplete_reason(ur, f):
+    if incomplete_reason(ur, f, pid):
         return False          # the proof text of this function is structurally incomplete on this tree: 'needs contract', not 'violation'
     for m in f.markers:
         mk = ur.gen.markers[m]
@@ -578,9 +588,9 @@ def main(argv):
     if viol:
         path = write_replay(pid, a.tier, viol, unit_runs, witness)
         for (ur, f) in viol:
-            inc = incomplete_reason(ur, f)
-            print('  failed obligation: %s%s' % (f.oblig, '' if is_primary(ur, f) else ('   [needs contract: %s]' % inc[:200] if inc else '   [auxiliary]')))
-        if not witness and not any(is_primary(ur, f) for (ur, f) in viol):
+            inc = incomplete_reason(ur, f, pid)
+            print('  failed obligation: %s%s' % (f.oblig, '' if is_primary(ur, f, pid) else ('   [needs contract: %s]' % inc[:200] if inc else '   [auxiliary]')))
+        if not witness and not any(is_primary(ur, f, pid) for (ur, f) in viol):
             # only auxiliary obligations (unnamed loop invariants, ghost assertions, proof hints) failed and no failing input was found:
             # the proof argument no longer goes through for this body - undecided, not a violation
             print('UNDECIDED property=%s reason=only auxiliary proof obligations failed (the argument of the proof broke on this body, or the body changed shape so that its contracts no longer attach: no decidable clause that states the property, no interface contract, no panic site) and the witness search found no failing input; details: %s' % (pid, path))
